@@ -92,13 +92,10 @@ class LexModel:
         if flags is None:
             raise AnalysisError("PLY anchor changed: lex(reflags=...) default not found")
         # the call site in PlyLexer.__new__ must not override it
-        new = self.lexer.func("PlyLexer.__new__")
-        call = None
-        for c in walk_local(new):
-            if isinstance(c, ast.Call) and attr_chain(c.func) == ("lex", "lex"):
-                call = c
-        if call is None:
-            raise AnalysisError("PLY anchor changed: lex.lex(...) call in PlyLexer.__new__ not found")
+        calls = [c for q, f in self.lexer.functions() if q.startswith("PlyLexer.") for c in walk_local(f) if isinstance(c, ast.Call) and attr_chain(c.func) == ("lex", "lex")]
+        if len(calls) != 1:
+            raise AnalysisError("PLY anchor changed: the single lex.lex(...) call of PlyLexer not found")
+        call = calls[0]
         for kw in call.keywords:
             if kw.arg == "reflags":
                 flags = self._flag_value(kw.value)
@@ -193,6 +190,18 @@ class LexModel:
         if not self.rules:
             raise AnalysisError("no lexer rules found")
 
+    def noreturn_methods(self) -> Set[str]:
+        """methods of the lexer class whose every path ends in a raise"""
+        if getattr(self, "_noreturn", None) is None:
+            out: Set[str] = set()
+            for st in self.cls.body:
+                if isinstance(st, ast.FunctionDef) and not st.name.startswith("t_"):
+                    c = CFG(st)
+                    if c.exit.id not in c.reachable() and any(n.kind == "stmt" and isinstance(n.stmt, ast.Raise) for n in c.nodes):
+                        out.add(st.name)
+            self._noreturn = out
+        return self._noreturn
+
     def _fn_effects(self, r: Rule) -> None:
         fn: ast.FunctionDef = r.node  # type: ignore
         params = [a.arg for a in fn.args.args]
@@ -215,8 +224,9 @@ class LexModel:
         # fall off the end
         for p, lab in cfg.exit.pred:
             if not (p.kind == "stmt" and isinstance(p.stmt, ast.Return)):
-                # is this predecessor an unconditional call to self._error ?
-                if p.kind == "stmt" and isinstance(p.stmt, ast.Expr) and isinstance(p.stmt.value, ast.Call) and attr_chain(p.stmt.value.func) == ("self", "_error"):
+                # is this predecessor an unconditional call to a method of the class that never returns (self._error) ?
+                pch = attr_chain(p.stmt.value.func) if p.kind == "stmt" and isinstance(p.stmt, ast.Expr) and isinstance(p.stmt.value, ast.Call) else None
+                if pch is not None and len(pch) == 2 and pch[0] == "self" and pch[1] in self.noreturn_methods():
                     r.exits.add("raise")
                     err_calls += 1
                 else:
